@@ -488,6 +488,7 @@ static void c04_case_single(uint64_t idx)
             int null = !vh_below(&r, 8);
             tlen = vh_below(&r, 2) ? bb : 1 + vh_below(&r, bb);
             if (!null && !tweak_null && !vh_below(&r, 6)) { tlen = bb; VH_COUNT("tweak_set_to_its_current_value_again", 1); }    /* the current (zero-padded) tweak once more, full length */
+            else if (!null && !tweak_null && !vh_below(&r, 7)) { tlen = 1 + vh_below(&r, bb - 1); memset(tweak + tlen, 0, 16 - tlen); VH_COUNT("tweak_set_to_a_shorter_prefix_of_the_current_one", 1); }   /* the rest becomes zero */
             else if (!null && !tweak_null && !vh_below(&r, 6)) { uint8_t tb[16]; tlen = bb; vh_related(&r, tb, tweak, bb); memcpy(tweak, tb, bb); VH_COUNT("tweak_related_to_the_current_one", 1); }   /* words repeated / swapped / one bit apart */
             else {
             memset(tweak, 0, 16);
